@@ -138,3 +138,114 @@ Proof.
     destruct (get_sess h1 y) as [t|] eqn:Ht; [|destruct L]. destruct L as (K & _).
     destruct (Hkind y t Ht) as (t0 & Ht0 & K0). exists t0. split; [exact Ht0|congruence].
 Qed.
+
+(* ------------------------------------------------------------------ joining a room *)
+Lemma rs_set_rooms h sid rs : h_rooms (rs_set h sid rs) = h_rooms h.
+Proof.
+  unfold rs_set. destruct (N.eqb rs 0); destruct (aget (h_rs1 h) sid); try reflexivity. destruct (N.eqb n rs); reflexivity.
+Qed.
+
+Lemma tapply_room_fresh (e : rep) rn : rn <> 0 -> (forall d, e <> Some (rn, d)) -> tapply e (SRoom rn) = Some (rn, []).
+Proof.
+  intros Hz Hn. destruct rn as [|p]; [contradiction|]. cbn. destruct e as [[r' d]|]; [|reflexivity].
+  change (match r' with 0 => false | N.pos q => (p =? q)%positive end) with (N.eqb (N.pos p) r').
+  destruct (N.eqb_spec (N.pos p) r') as [<-|]; [exfalso; exact (Hn d eq_refl)|reflexivity].
+Qed.
+
+Lemma ri_join_room h g c sid k rs perms su s :
+  WF h -> RI h g -> PC h -> get_sess h sid = Some s -> is_virtual (s_kind s) = false -> sid <= h_nextsid h -> snd k <> 0 ->
+  (forall d, replayT (s_pending s) (g_rep g sid) <> Some (snd k, d)) ->
+  RI (fst (join_room h c sid k rs perms su)) (gouts g (snd (join_room h c sid k rs perms su))).
+Proof.
+  intros W I P Hs Hv Hle Hz He. unfold join_room.
+  pose proof (nr_leave_room (fun y => y = sid) h h sid true (or_introl eq_refl) (nr_refl _ _)) as [B1 Q1].
+  destruct (leave_room_self h sid true s Hs Hv) as (s1 & Hs1 & K1 & C1 & P1 & R1).
+  pose proof (wf_leave_room _ _ h sid true W) as W1.
+  destruct (leave_room h sid true) as [h1 o1]. cbn [fst snd] in *. rewrite Hs1.
+  pose proof (si_after_leave h h1 g sid s s1 I P B1 Hs Hs1 C1 P1) as Si1.
+  assert (HF1 := hf_after_leave h h1 g sid s s1 I B1 Hs Hs1 P1).
+  pose proof (rie_nr (fun _ => False) (fun y => y = sid) h h1 g (rie_of_ri _ h g I) B1) as [S1 F1].
+  assert (Hv1 : is_virtual (s_kind s1) = false) by congruence.
+  set (r := match room_of h1 k with Some x => x | None => empty_room end).
+  assert (Hal : nmem sid (r_members r) = false).
+  { apply nmem_false_iff. intros Hin. unfold r in Hin. destruct (room_of h1 k) as [x|] eqn:Hx; [|destruct Hin].
+    destruct (wf_members _ _ h1 W1 k x sid Hx Hin) as (s0 & Hs0 & Hk0). congruence. }
+  cbv zeta. fold r. rewrite Hal.
+  set (r' := mkroom (nadd sid (r_members r)) (r_incall r) (if N.eqb su 0 then r_sessdata r else aset (r_sessdata r) sid su) (r_transient r) (r_props r)).
+  set (s1' := upd_sess s1 (Some k) rs (s_conn s1) match perms with Some p => Some p | None => s_perms s1 end (s_pending s1) [] (h_clock h1)).
+  match goal with |- context [send_session ?H sid (SRoom (snd k))] => set (h5 := H) end.
+  assert (G5 : forall y, get_sess h5 y = if N.eqb y sid then Some s1' else get_sess h1 y).
+  { intros y. unfold h5, get_sess. destruct (N.eqb rs 0); destruct (s_kind s1) as [|f d|]; try destruct d; cbn; rewrite ?rs_set_sessions; cbn; apply aget_aset. }
+  assert (R5 : h_rooms h5 = pset (h_rooms h1) k r').
+  { unfold h5. destruct (N.eqb rs 0); destruct (s_kind s1) as [|f d|]; try destruct d; cbn; rewrite ?rs_set_rooms; reflexivity. }
+  assert (N5 : h_nextsid h5 = h_nextsid h1).
+  { unfold h5. destruct (N.eqb rs 0); destruct (s_kind s1) as [|f d|]; try destruct d; cbn; rewrite ?rs_set_nextsid; reflexivity. }
+  clearbody h5.
+  assert (Hs5 : get_sess h5 sid = Some s1') by (rewrite G5, N.eqb_refl; reflexivity).
+  assert (Si5 : SI h5 g).
+  { intros y t. rewrite G5. destruct (N.eqb_spec y sid) as [->|Hne]; [|apply Si1].
+    intros E. injection E as <-. cbn. destruct (Si1 sid s1 Hs1) as [A B]. split; assumption. }
+  assert (HF5 : forall y t, get_sess h5 y = Some t -> hello_free (s_pending t)).
+  { intros y t. rewrite G5. destruct (N.eqb_spec y sid) as [->|Hne]; [|apply HF1]. intros E. injection E as <-. cbn. apply (HF1 sid s1 Hs1). }
+  pose proof (send1 (SRoom (snd k)) h5 g sid s1' Logic.I Si5 Hs5 Hv1) as St1.
+  destruct (send_session h5 sid (SRoom (snd k))) as [h7 o2]. cbn [fst snd] in St1.
+  assert (Hr7 : room_of h7 k = Some r') by (unfold room_of; rewrite (st_rooms _ _ _ _ _ _ St1), R5; apply pget_pset_same).
+  rewrite Hr7.
+  set (h9 := publish h7 (SubjRoom (fst k) (snd k)) (ARoomEvent (SJoin [(sid, if N.eqb (s_user s1) 0 then su else s_user s1)]))).
+  set (g7 := gouts g o2) in *.
+  (* the initial data *)
+  assert (St2 : exists T2, (forall y, y <> sid -> T2 y = false) /\
+            (r_transient r = [] -> T2 sid = false) /\ (r_transient r <> [] -> T2 sid = true) /\
+            let r10 := match r_transient r with [] => (h9, []) | d => send_session h9 sid (STransient (TInit d)) end in
+            sent h7 g7 (fst r10) (gouts g7 (snd r10)) (STransient (TInit (r_transient r))) T2).
+  { destruct (r_transient r) as [|e l] eqn:Hd.
+    - exists (fun _ => false). split; [reflexivity|]. split; [reflexivity|]. split; [congruence|]. cbn [fst snd].
+      change (gouts g7 []) with g7. 
+      assert (X : sent h7 g7 h7 g7 (STransient (TInit [])) (fun _ => false)) by (apply sent_refl, (st_si _ _ _ _ _ _ St1)).
+      destruct X as [A B C D F G O H]. constructor; auto.
+    - exists (fun y => N.eqb y sid). split; [intros y Hy; now apply N.eqb_neq|]. split; [congruence|]. split; [intros _; apply N.eqb_refl|]. cbv zeta.
+      pose proof (sent_live _ _ _ _ _ _ sid St1) as L. rewrite Hs5 in L. destruct (get_sess h7 sid) as [s7|] eqn:Hs7; [|destruct L].
+      destruct L as (K7 & _).
+      assert (Hv7 : is_virtual (s_kind s7) = false) by (rewrite K7; exact Hv1).
+      pose proof (send1 (STransient (TInit (e :: l))) h9 g7 sid s7 Logic.I (st_si _ _ _ _ _ _ St1) Hs7 Hv7) as X.
+      destruct (send_session h9 sid (STransient (TInit (e :: l)))) as [h10 o3]. cbn [fst snd] in *.
+      destruct X as [A B C D F G O H]. constructor; auto. }
+  destruct St2 as (T2 & T2o & T2e & T2n & St2). cbv zeta in St2.
+  destruct (match r_transient r with [] => (h9, []) | e :: l => send_session h9 sid (STransient (TInit (e :: l))) end) as [h10 o3].
+  cbn [fst snd] in *.
+  rewrite !gouts_app, (gouts_quiet _ _ Q1). fold g7. set (g10 := gouts g7 o3) in *.
+  apply (ri_eq h10); try reflexivity.
+  assert (Rooms10 : h_rooms h10 = pset (h_rooms h1) k r').
+  { rewrite (st_rooms _ _ _ _ _ _ St2), (st_rooms _ _ _ _ _ _ St1). exact R5. }
+  assert (HF10 : forall y t, get_sess h10 y = Some t -> hello_free (s_pending t)).
+  { apply (st_hf _ _ _ _ _ _ St2). apply (st_hf _ _ _ _ _ _ St1). exact HF5. }
+  constructor.
+  - intros y t' Ht'.
+    pose proof (sent_live _ _ _ _ _ _ y St2) as L2. rewrite Ht' in L2. destruct (get_sess h7 y) as [t7|] eqn:Ht7; [|destruct L2].
+    pose proof (sent_live _ _ _ _ _ _ y St1) as L1. rewrite Ht7 in L1. rewrite G5 in L1.
+    destruct L2 as (K2 & C2 & Rm2 & E2).
+    destruct (N.eq_dec y sid) as [->|Hne].
+    + rewrite N.eqb_refl in L1. destruct L1 as (Ka & Ca & Rma & Ea). cbn [s1' s_kind s_conn s_room s_pending upd_sess] in Ka, Ca, Rma, Ea.
+      destruct (ri_sess _ _ I sid s Hs) as [Bn Vc Hh Rp]. constructor.
+      * intros c' Hc'. unfold g10, g7. rewrite (st_bind _ _ _ _ _ _ St2), (st_bind _ _ _ _ _ _ St1). apply Bn. congruence.
+      * intros V. congruence.
+      * apply (HF10 sid t' Ht').
+      * intros _. rewrite Rm2, Rma. split; [exact Hz|]. exists (r_transient r). split.
+        -- rewrite E2, Ea, P1. rewrite (tapply_room_fresh _ (snd k) Hz He).
+           destruct (r_transient r) as [|e l] eqn:Hd; [rewrite (T2e eq_refl); reflexivity|].
+           rewrite T2n by discriminate. reflexivity.
+        -- intros r0 Hr0. unfold room_of in Hr0. rewrite Rooms10, pget_pset_same in Hr0. injection Hr0 as <-. reflexivity.
+    + destruct (N.eqb_spec y sid) as [|_]; [contradiction|]. destruct (get_sess h1 y) as [t1|] eqn:Ht1; [|destruct L1].
+      destruct L1 as (Ka & Ca & Rma & Ea). rewrite (T2o y Hne) in E2.
+      apply (rix_move h1 h10 g g10 y t1 t'); try congruence.
+      * intros k2 r2 Hk2 Hr2. unfold room_of in Hr2. rewrite Rooms10, pget_pset in Hr2.
+        destruct (pair_eqb_spec k2 k) as [->|Hnk]; [|exists r2; split; [exact Hr2|reflexivity]].
+        injection Hr2 as <-. destruct (wf_room _ _ h1 W1 y t1 k Ht1 Hk2) as [[]|(rx & Hrx & _)].
+        exists rx. split; [exact Hrx|]. unfold r'. cbn [r_transient]. unfold r. rewrite Hrx. reflexivity.
+      * intros c'. unfold g10, g7. rewrite (st_bind _ _ _ _ _ _ St2), (st_bind _ _ _ _ _ _ St1). reflexivity.
+      * apply (HF10 y t' Ht').
+      * apply S1; [intros [[]|E']; contradiction|exact Ht1].
+  - intros x Hx. rewrite (st_next _ _ _ _ _ _ St2), (st_next _ _ _ _ _ _ St1), N5 in Hx. destruct B1 as (_ & _ & Nx).
+    assert (Hxs : x <> sid) by lia.
+    rewrite (st_other _ _ _ _ _ _ St2 x (T2o x Hxs)), (st_other _ _ _ _ _ _ St1 x); [apply F1; lia|now apply N.eqb_neq].
+Qed.
